@@ -42,7 +42,7 @@ var parseBase = []string{"(", ")", "[", "]", "{", "}", "dq", "bs", "bt", "sq",
 // parseClassNames is ClassNames of spec/ParseTrace.tla: a class travels as its
 // 1-based position in this list (reading strings is what costs TLC time).
 var parseClassNames = []string{"(", ")", "[", "]", "{", "}", "dq", "bs", "bt", "sq",
-	"a", "1", "-", ":", ".", "/", "*", ";", "sp", "nl", "op", "q", "t", ",", "x", "none", "?", "+"}
+	"a", "1", "-", ":", ".", "/", "*", ";", "sp", "nl", "op", "q", "t", ",", "x", "none", "?", "+", "@"}
 
 func parseClassCode(c string) int {
 	for i, n := range parseClassNames {
@@ -58,6 +58,18 @@ var parseStatusCode = map[string]int{"more": 1, "done": 2, "err": 3, "panic": 4}
 // reduced alphabets for longer texts (symmetric classes dropped)
 var parseMid = []string{"(", ")", "{", "}", "dq", "bs", "bt", "a", "1", "-", "/", "*", "sp", "nl"}
 var parseSmall = []string{"(", ")", "dq", "bt", "a", "-", "/", "*", "sp"}
+
+// escapes inside strings and character literals (letters spelled x u U n, see parseSpellEsc)
+var parseEsc = []string{"dq", "bs", "a", "1", "sp", "("}
+
+// quote prefixes % ^ ~ ~@ and signs, classes outside the 20 of DESIGN.md
+var parsePfx = []string{"q", "t", "@", "+", "-", "a", "1", "sp", "nl", "(", ")"}
+
+// brackets only (host texts for comment insertion)
+var parseBrk = []string{"(", ")", "[", "]", "{", "}"}
+
+// comments are white space: every host text with a line or block comment inserted at every position
+var parseComments = [][]string{{"/", "/", "a", "nl"}, {"/", "*", "a", "*", "/"}}
 
 // concrete spelling of a class; variant selects among the letters/digits
 func parseClassChar(c string, variant int) string {
@@ -77,6 +89,10 @@ func parseClassChar(c string, variant int) string {
 		return " "
 	case "nl":
 		return "\n"
+	case "q":
+		return []string{"%", "^"}[variant%2]
+	case "t":
+		return "~"
 	case "a":
 		return []string{"a", "e", "n"}[variant%3]
 	case "1":
@@ -109,6 +125,8 @@ func parseClassOf(r rune) string {
 		return "q"
 	case '~':
 		return "t"
+	case '@':
+		return "@"
 	}
 	if r >= '0' && r <= '9' {
 		return "1"
@@ -241,10 +259,11 @@ func (b *parseCaseBuilder) freshParse(text string) parseRes {
 // ---------------------------------------------------------------- histories
 
 type parseHist struct {
-	name  string
-	hl    string // class of the last character the lexer read
-	stale string // queued chunk left unread ("" if none)
-	run   func(p *zygo.Parser)
+	name   string
+	hl     string // class of the last character the lexer read
+	stale  string // queued chunk left unread ("" if none)
+	run    func(p *zygo.Parser)
+	runEnv func(env *zygo.Zlisp, p *zygo.Parser) // histories that go through the interpreter
 }
 
 var parseHists = []parseHist{
@@ -298,7 +317,23 @@ func init() {
 		mk(fmt.Sprintf("err-long%d", n), ")", "("+strings.Repeat("a", n-3)+"))")
 		mk(fmt.Sprintf("aband-long%d", n), "a", "("+strings.Repeat("a", n-1))
 	}
+	// an unfinished text abandoned through the iterator protocol, as the read builtin and the
+	// repl do: the consumer leaves the ParsingIter loop at the request for more input
+	parseHists = append(parseHists, parseHist{name: "iter-break", hl: "a", run: func(p *zygo.Parser) {
+		parseSafely(func() {
+			p.ResetAddNewInput(strings.NewReader("(a b"))
+			for range p.ParsingIter() {
+				break
+			}
+		})
+	}})
+	parseHists = append(parseHists, parseHist{name: "read-unfinished", hl: "a",
+		runEnv: func(env *zygo.Zlisp, p *zygo.Parser) { evalSafe(env, `(read "[a (b")`) }})
+	parseTailHists = 2
 }
+
+// parseTailHists: histories appended behind the long ones
+var parseTailHists int
 
 // parseLookBehindFirst: classes whose reading as the first character of a text is decided by
 // looking at the preceding character (sign rule, two-character operators, comments, := ...).
@@ -327,6 +362,9 @@ func parseLongRuns(n int, idx int, all bool) []parseRun {
 		return runs
 	}
 	add(parseCoreHists) // ok-greet
+	for k := 1; k <= parseTailHists; k++ {
+		runs = append(runs, parseRun{hist: len(parseHists) - k, load: (k + idx) % 2})
+	}
 	for k := 0; k < 3; k++ {
 		li := (idx + 2*k) % len(parseLongLens)
 		add(parseCoreHists + 1 + 3*li + k) // k = 0 ok, 1 err, 2 aband
@@ -431,12 +469,17 @@ func (b *parseCaseBuilder) exec(r parseRun) {
 		b.env = zygo.NewZlisp()
 	}
 	var p *zygo.Parser
-	if h.run == nil {
-		p = b.env.NewParser()
-	} else {
+	switch {
+	case h.runEnv != nil:
+		p = b.env.VerifParser()
+		h.runEnv(b.env, p)
+	case h.run != nil:
 		p = b.env.VerifParser()
 		h.run(p)
+	default:
+		p = b.env.NewParser()
 	}
+	freshParser := h.run == nil && h.runEnv == nil
 	n := len(b.runes)
 	ends := append(append([]int{}, r.cuts...), n)
 	obs := []int{}
@@ -471,7 +514,7 @@ func (b *parseCaseBuilder) exec(r parseRun) {
 			break
 		}
 	}
-	if h.run == nil {
+	if freshParser {
 		parseSafely(func() { p.Stop() })
 	}
 	if poisoned {
@@ -567,6 +610,23 @@ func parseSpell(cls []string, variant int) string {
 			v = (variant + i) % 3
 		}
 		sb.WriteString(parseClassChar(c, v))
+	}
+	return sb.String()
+}
+
+// parseSpellEsc spells letters as the characters that open an escape of more than one
+// character (\x41 \u00e9 \U0001F600) or a plain one (\n), and digits as hex digits.
+func parseSpellEsc(cls []string, k int) string {
+	var sb strings.Builder
+	for i, c := range cls {
+		switch c {
+		case "a":
+			sb.WriteString([]string{"x", "u", "U", "n"}[(k+i)%4])
+		case "1":
+			sb.WriteString([]string{"4", "0", "9"}[(k+i)%3])
+		default:
+			sb.WriteString(parseClassChar(c, (k+i)%2))
+		}
 	}
 	return sb.String()
 }
@@ -691,7 +751,10 @@ func parseGenSpecs(c *common, arg string) []parseGenSpec {
 	if arg == "" {
 		// quick default; the thorough tier is driven by lib/props/C13.py in batches
 		return []parseGenSpec{{"base", 1, true, 1, 0, 1}, {"base", 2, true, 1, 0, 1}, {"base", 3, true, 1, 0, 1},
-			{"small", 4, false, 1, 0, 1}}
+			{"small", 4, false, 1, 0, 1},
+			{"esc", 2, false, 1, 0, 1}, {"esc", 3, false, 1, 0, 1}, {"esc", 4, false, 1, 0, 1},
+			{"pfx", 1, false, 1, 0, 1}, {"pfx", 2, false, 1, 0, 1}, {"pfx", 3, false, 1, 0, 1},
+			{"cmt", 1, false, 1, 0, 1}, {"cmt", 2, false, 1, 0, 1}, {"cmtb", 3, false, 1, 0, 1}}
 	}
 	var out []parseGenSpec
 	for _, one := range strings.Split(arg, ";") {
@@ -723,6 +786,11 @@ var parseSeeds = []string{
 	"-7", "-7 ", "+1 ", "- 1 ", "-a ", "-1e-5 ", "+.5 ", "-Inf ", "--x ", "-> a ", "-= 1 ", "/* c */ a ", "// c\n a ",
 	":= 1 ", ": a ", "** 2 ", "*= 2 ", "*/ ", "/= 2 ", ".5 ", ".a ", "<= 1 ", "== 1 ", "!= 1 ", "&& a ", "|| a ",
 	"1e-5 ", "e-5 ", "(-7) ", " -7 ", "\n-7 ",
+	// dotted pairs, quote prefixes at top level, long escapes, braces with comments only
+	"(assert (== %(1 \\ 2) (cons 1 2)))\n", "(a \\ (b c)) ", "%+\n", "%-", "^-\n", "~+\n", "(a) % -\n", "%%a", "%~a",
+	"^~@a", "(x) ~@%a", "% ++ \n", "x ~ -.5\n", "~", "x ~", "(a) ~", "~a\n", "(f ~@%a)\n",
+	"\"ab\\x41cd\"\n", "\"ab\\u00e9cd\" x\n", "(f) \"\\U0001F600\"\n", "'\\x41' ",
+	"{ //c\n }\n", "{{ /*c*/ } a}\n", "({ //c\n } b)\n", "{}\n",
 }
 
 func parseSeedCases(c *common, w *ndWriter) {
@@ -746,29 +814,26 @@ func parseSeedCases(c *common, w *ndWriter) {
 	}
 }
 
+func parseContains(cls []string, want ...string) bool {
+	for _, c := range cls {
+		for _, w := range want {
+			if c == w {
+				return true
+			}
+		}
+	}
+	return false
+}
+
 func parseGen(c *common, w *ndWriter, arg string) {
 	if arg == "" {
 		parseSeedCases(c, w)
 	}
 	idx := 0
 	for _, sp := range parseGenSpecs(c, arg) {
-		var alpha []string
-		tag := "g"
-		switch sp.alpha {
-		case "base":
-			alpha = parseBase
-		case "mid":
-			alpha, tag = parseMid, "m"
-		case "small":
-			alpha, tag = parseSmall, "s"
-		default:
-			fatal("unknown alphabet %q", sp.alpha)
-		}
 		sp := sp
-		parseForTexts(alpha, sp.length, func(cls []string) {
-			if sp.alpha != "base" && !parseHasStructure(cls) {
-				return
-			}
+		// one text of the enumeration: sampling, sharding, spelling, runs
+		emit := func(tag string, cls []string, esc bool) {
 			idx++
 			if sp.n > 1 && idx%sp.n != sp.k {
 				return
@@ -780,10 +845,13 @@ func parseGen(c *common, w *ndWriter, arg string) {
 				return
 			}
 			variant := 0
-			if idx%4 == 3 {
+			if idx%4 == 3 || tag == "p" {
 				variant = 1 + idx%3
 			}
 			text := parseSpell(cls, variant)
+			if esc {
+				text = parseSpellEsc(cls, idx)
+			}
 			b := newParseCase(fmt.Sprintf("%s%d:%s", tag, variant, strings.Join(cls, "")), text)
 			var runs []parseRun
 			if sp.full {
@@ -800,7 +868,48 @@ func parseGen(c *common, w *ndWriter, arg string) {
 				b.exec(r)
 			}
 			w.write(b.finish(true))
-		})
+		}
+		switch sp.alpha {
+		case "base":
+			parseForTexts(parseBase, sp.length, func(cls []string) { emit("g", cls, false) })
+		case "mid", "small":
+			alpha, tag := parseMid, "m"
+			if sp.alpha == "small" {
+				alpha, tag = parseSmall, "s"
+			}
+			parseForTexts(alpha, sp.length, func(cls []string) {
+				if parseHasStructure(cls) {
+					emit(tag, cls, false)
+				}
+			})
+		case "esc": // texts with a backslash escape; letters x u U n, hex digits
+			parseForTexts(parseEsc, sp.length, func(cls []string) {
+				if parseContains(cls, "bs") {
+					emit("e", cls, true)
+				}
+			})
+		case "pfx": // texts with a quote prefix
+			parseForTexts(parsePfx, sp.length, func(cls []string) {
+				if parseContains(cls, "q", "t") {
+					emit("p", cls, false)
+				}
+			})
+		case "cmt", "cmtb": // a comment inserted at every position of every host text
+			hosts := parseMid
+			if sp.alpha == "cmtb" {
+				hosts = parseBrk
+			}
+			parseForTexts(hosts, sp.length, func(cls []string) {
+				for pos := 0; pos <= len(cls); pos++ {
+					for _, cm := range parseComments {
+						t := append(append(append([]string{}, cls[:pos]...), cm...), cls[pos:]...)
+						emit("c", t, false)
+					}
+				}
+			})
+		default:
+			fatal("unknown alphabet %q", sp.alpha)
+		}
 	}
 }
 
